@@ -132,6 +132,29 @@ theorem wpOk_expectClient (cfg) (c : Call) (e) (Q) (rs : RState) :
   generalize (rs.step cfg c).2 = r
   cases r <;> simp [HP.ok, HP.fail, HP.mk, HP.toProg]
 
+theorem wpOk_expectDev (cfg) (c : Call) (other) (Q) (rs : RState) :
+    wpOk cfg (expectDev c other) Q rs ↔ ∀ x, (rs.step cfg c).2 = .dev x → Q (rs.step cfg c).1 x := by
+  unfold expectDev wpOk HP.mk
+  show wp cfg (Prog.call c _) _ rs ↔ _
+  simp only [wp_call]
+  generalize (rs.step cfg c).2 = r
+  cases r <;> simp [HP.ok, HP.mk, HP.toProg]
+  all_goals exact wpOk_failWith cfg _ Q _
+
+theorem wpOk_expectPar (cfg) (c : Call) (other) (Q) (rs : RState) :
+    wpOk cfg (expectPar c other) Q rs ↔ ∀ x, (rs.step cfg c).2 = .par x → Q (rs.step cfg c).1 x := by
+  unfold expectPar wpOk HP.mk
+  show wp cfg (Prog.call c _) _ rs ↔ _
+  simp only [wp_call]
+  generalize (rs.step cfg c).2 = r
+  cases r <;> simp [HP.ok, HP.mk, HP.toProg]
+  all_goals exact wpOk_failWith cfg _ Q _
+
+/-- a postcondition that holds of every state and value holds after any handler program -/
+theorem wpOk_of_forall {α} (cfg) (x : HP α) (Q : RState → α → Prop) (rs) (h : ∀ rs' a, Q rs' a) : wpOk cfg x Q rs := by
+  unfold wpOk
+  exact wp_mono cfg x.toProg _ _ rs (fun rs' r _ a _ => h rs' a) (wp_true cfg x.toProg rs)
+
 theorem wpOk_ite {α} (cfg) (c : Prop) [Decidable c] (x y : HP α) (Q) (rs) :
     wpOk cfg (if c then x else y) Q rs ↔ (c → wpOk cfg x Q rs) ∧ (¬c → wpOk cfg y Q rs) := by
   split <;> simp_all
